@@ -42,7 +42,7 @@ def run(chk, replay=None):
     chk.assumptions += [
         'objects carry the epoch of the call that created them; independence is tied to the code by pointer disjointness of the two reachable object graphs (all mutable state lives in the reachable entity objects)',
         'content = the wire dump (every attribute the API exposes, resets by index into their component, whether an order is set); variables that name units of the model hold units with the content of the model\'s (parser / linkUnits situation)',
-        'equivalences are compared by position including mapping / connection ids; each generated variable takes part in at most one equivalence (C12: connection-id getter)']
+        'equivalences are compared by position including mapping / connection ids; a variable may take part in several equivalences, added in random order; all pairs between two components carry the same connection id, as in a document (otherwise the connection-id getter depends on addresses: C12)']
     chk.cov['trusted_base'] += ['harness/hx_clone.cpp + hx_entity.h (builder, dumper, reachability), lean/Cellml/Engine/Clone.lean', 'python generators (pygen/entities.py)']
     if not ok:
         chk.violation('Lean obligations of C11 no longer check: ' + out[-1500:], {'kind': 'proof', 'theorem_or_build_log': out[-3000:]}, False)
@@ -60,11 +60,11 @@ def run(chk, replay=None):
                 if kind == 'model':
                     m = make_consistent(rng, E.gen_model(rng))
                     vs = all_vars(m); used = set(); eq = []; conn = {}
-                    for _ in range(rng.randint(0, 4)):
+                    for _ in range(rng.randint(0, 6)):
                         if len(vs) < 2: break
                         a, b = rng.sample(vs, 2)
-                        if a[0] == b[0] or a in used or b in used: continue
-                        used.add(a); used.add(b)
+                        if a[0] == b[0] or (a, b) in used or (b, a) in used: continue
+                        used.add((a, b))
                         key = tuple(sorted([a[0], b[0]]))      # one connection id per pair of components, as in a document
                         if key not in conn: conn[key] = rng.choice(E.IDS)
                         eq.append('(e %s %d %s %d %s %s)' % (a[0], a[1], b[0], b[1], E.H(rng.choice(E.IDS)), E.H(conn[key])))
